@@ -309,7 +309,7 @@ def walk(t):
 class C30(core.Prop):
     id = "C30"
     drivers = ["mpi_interp"]
-    sizes = {"quick": 1000, "thorough": 30000}
+    sizes = {"quick": 700, "thorough": 30000}
     max_workers = 4
     technique = ("property-based testing (Hypothesis): a type-map calculator (MPI-3.1 4.1) gives size/lb/ub/extent of every node of a random "
                  "constructor tree and the exact set and order of the bytes that a transfer moves; compared with MPI_Type_size/get_extent "
